@@ -43,6 +43,32 @@ CLAIMS = {
         "Trusts the alias/in-place tables for numpy/sklearn calls; exception paths between save and restore are not modelled.",
         "DESIGN.md section 3 C03",
     ),
+    "C04": (
+        "boolean dataflow of the budget guard inside the per-instance loop + must-update path analysis + effect analysis of update",
+        "Decides the four structural premises of the bound for the 6 budget-enforcing managers and the 2 baseline strategies: every grant is reachable/true only "
+        "under the budget guard of its iteration (through guard variables, list-tail reads, conditional expressions; only allow_exceeding_budget may disjoin); the guard "
+        "compares the running spent-estimate with budget_ in the admitting direction; the estimate is advanced from its previous value and the grant indicator on every path; "
+        "update commits every seeding attribute from queried_indices/candidates. The numerical bound itself follows by arithmetic that is not in the code and is not decided.",
+        "Strict vs non-strict comparison is not judged; BalancedIncrementalQuantileFilter is excluded (not budget-enforcing).",
+        "DESIGN.md section 3 C04",
+    ),
+    "C10": (
+        "must-append path analysis, loop-carried-definition check of update guards, sibling agreement of simulation vs commit transition operators, RNG mirror via effect analysis",
+        "Decides necessary structural conditions: lists handed to budget_manager_.update with the caller's indices get exactly one append per candidate on every path; "
+        "per-instance guards in update read a spent-estimate redefined in the same loop; the set of normalised update operators (with indicator polarity) applied to each simulated "
+        "state variable equals the set committed in update; returned indices are append-only enumerate counters / np.where(mask)[0]; update advances the generator the simulation drew from. "
+        "Chunking invariance as an equality of whole runs is not decided.",
+        "RandomVariableUncertaintyBudgetManager is outside the chunking-invariance claim and not judged by R10.2.",
+        "DESIGN.md section 3 C10",
+    ),
+    "C17": (
+        "path-sensitive must-write analysis with value-set facts; dominance of the zeroing store; structural rules on majority_vote",
+        "Decides: ext_confusion_matrix stores its output slice on every feasible path of the per-annotator loop (value set of `normalize` from the validating test); "
+        "compute_vote_vectors zeroes the bincount weights at the missing-label mask by the last dominating store; majority_vote fills with the sentinel, writes only under the "
+        "has-a-label mask and decodes rand_argmax over the vote matrix. Equality with the counting specification as numbers is not decided.",
+        "np.bincount and sklearn's confusion_matrix are trusted to count.",
+        "DESIGN.md section 3 C17",
+    ),
     "C05": (
         "interprocedural alias/ownership analysis: who may write constructor parameters, caller arrays and caller models",
         "Decides the ownership clauses for all 32 pool query entities with callees inlined: no reachable store to / in-place "
